@@ -148,6 +148,12 @@ def none_cond(t, never_none=None):
         return OR(AND(t[1], a), AND(NOT(t[1]), b))
     if t[0] in ("global", "lambda", "tuple", "list", "dict", "fstr") or (t[0] == "const" and t[1] is not None):
         return FALSE
+    if t[0] in ("bin", "neg", "cmp", "not", "set", "comp", "slice"):
+        return FALSE  # the result of arithmetic / a comparison / a display is never None
+    if t[0] == "call" and t[1] in (("builtin", "len"), ("builtin", "int"), ("builtin", "float"), ("builtin", "str"), ("builtin", "bool"),
+                                   ("builtin", "abs"), ("builtin", "sum"), ("builtin", "list"), ("builtin", "tuple"), ("builtin", "set"),
+                                   ("builtin", "dict"), ("builtin", "sorted"), ("builtin", "range")):
+        return FALSE
     return None
 
 
@@ -405,6 +411,7 @@ class Evaluator:
         self.list_defs: Dict[str, tuple] = {}  # local bound to a list display: (loop stack, live) at the binding
         self.dict_defs: Dict[str, tuple] = {}
         self.alloc_comps: Dict[tuple, tuple] = {}
+        self.param_classes: Dict[str, ClassInfo] = {}
         self.unpacked: Dict[tuple, int] = {}
         self.rec_types: Dict[tuple, ClassInfo] = {}  # opaque values (loop elements, parameters) known to be NamedTuple records
 
@@ -495,12 +502,23 @@ class Evaluator:
             ci_ = self._record_class_of_annotation(ann, self.module)
             if ci_ is not None:
                 self.rec_types[("param", pname)] = ci_
+            # the in-package class a parameter is declared as (methods added to it later are seen through)
+            if isinstance(ann, (ast.Name, ast.Attribute)):
+                try:
+                    sy_ = self.index.resolve_expr(self.module, ann)
+                except AnalysisError:
+                    sy_ = None
+                if sy_ is not None and sy_.kind == "class" and ":" in sy_.qual:
+                    pc_ = self.index.class_by_qual(sy_.qual)
+                    if pc_ is not None:
+                        self.param_classes[pname] = pc_
         if isinstance(fn, ast.Lambda):
             t = self.ev(fn.body, TRUE)
             self.emit("return", TRUE, t, fn.body)
             fall = FALSE
         else:
             fall = self.block(fn.body, TRUE)
+            self._normalise_search_loops()
             self._normalise_accumulators()
         return Summary(self.qual, self.module, fn, params, defaults, annotations, self.events, self.loops,
                        self.tries, self.env, fall, self.lambdas, self.nested, self.is_generator, kwarg, vararg,
@@ -595,17 +613,54 @@ class Evaluator:
             self._post = []
         return live
 
+    @staticmethod
+    def _dict_set(items, key, val):
+        """the items of a dict display after `d[key] = val` (a constant key keeps its first position, as in a dict)"""
+        out, hit = [], False
+        for k_, v_ in items:
+            if k_ == key and not hit:
+                out.append((k_, val))
+                hit = True
+            else:
+                out.append((k_, v_))
+        if not hit:
+            out.append((key, val))
+        return tuple(out)
+
     def stmt(self, st, live):
         if isinstance(st, ast.Expr) and isinstance(st.value, ast.Call) and isinstance(st.value.func, ast.Attribute) \
                 and st.value.func.attr == "update" and isinstance(st.value.func.value, ast.Name) \
-                and len(st.value.args) == 1 and not st.value.keywords:
-            # `d = {..}` ... `d.update(other)` on the same path: d is the display {.., **other}
+                and len(st.value.args) <= 1 and (st.value.args or st.value.keywords) and all(k.arg is not None for k in st.value.keywords):
+            # `d = {..}` ... `d.update(other, k=v)` on the same path: d is the display {.., **other, "k": v}
             nm = st.value.func.value.id
             cur = self.env.get(nm)
             if cur is not None and cur[0] == "dict" and cur[1] and self.dict_defs.get(nm) == (tuple(self.loop_stack), live):
-                arg = self.ev(st.value.args[0], live)
-                self.env[nm] = fold_sub(("dict", cur[1] + ((("dstar",), arg),)))
+                items = cur[1]
+                if st.value.args:
+                    arg = self.ev(st.value.args[0], live)
+                    items = items + ((("dstar",), arg),)
+                for k in st.value.keywords:
+                    v_ = self.ev(k.value, live)
+                    if any(kk[0] == "dstar" for kk, _ in items):
+                        items = items + ((("const", k.arg), v_),)
+                    else:
+                        items = self._dict_set(items, ("const", k.arg), v_)
+                self.env[nm] = fold_sub(("dict", items))
                 return live
+        if isinstance(st, ast.Assign) and len(st.targets) == 1 and isinstance(st.targets[0], ast.Subscript) \
+                and isinstance(st.targets[0].value, ast.Name):
+            # `d = {..}` ... `d["k"] = v` on the same path: d is the display with that item set
+            nm = st.targets[0].value.id
+            cur = self.env.get(nm)
+            if cur is not None and cur[0] == "dict" and cur[1] and self.dict_defs.get(nm) == (tuple(self.loop_stack), live) \
+                    and not any(kk[0] == "dstar" for kk, _ in cur[1]):
+                saved = len(self.events)
+                key = self.ev(st.targets[0].slice, live)
+                if key[0] == "const" and all(kk[0] == "const" for kk, _ in cur[1]) and len(self.events) == saved:
+                    val = self.ev(st.value, live)
+                    self.env[nm] = ("dict", self._dict_set(cur[1], key, val))
+                    return live
+                del self.events[saved:]
         if isinstance(st, ast.Expr) and isinstance(st.value, ast.Call) and isinstance(st.value.func, ast.Attribute) \
                 and st.value.func.attr in ("append", "extend", "insert") and isinstance(st.value.func.value, ast.Name) \
                 and len(st.value.args) == (2 if st.value.func.attr == "insert" else 1) and not st.value.keywords:
@@ -615,12 +670,19 @@ class Evaluator:
             cur = self.env.get(nm)
             ld = self.list_defs.get(nm)
 
-            def leaves_are_lists(t):
-                return t[0] == "list" or (t[0] == "ite" and leaves_are_lists(t[2]) and leaves_are_lists(t[3]))
+            def fresh_alloc(t):
+                # the still empty `xs = []` itself (on the path where nothing was appended yet)
+                return t[0] == "alloc" and t[1] == "list" and t[2].split("@")[0] == nm and not any(t in walk(e_.term) for e_ in self.events)
 
+            def leaves_are_lists(t):
+                return t[0] == "list" or fresh_alloc(t) or (t[0] == "ite" and leaves_are_lists(t[2]) and leaves_are_lists(t[3]))
+
+            # `xs = []` grown by straight-line appends (not in a loop) is the display of what was appended
             if cur is not None and leaves_are_lists(cur) and ld is not None and ld[0] == tuple(self.loop_stack) \
                     and all(c in conjuncts(live) for c in conjuncts(ld[1])):
                 def upd(t, fn):
+                    if t[0] == "alloc":
+                        return ("list", fn(()))
                     return ITE(t[1], upd(t[2], fn), upd(t[3], fn)) if t[0] == "ite" else ("list", fn(t[1]))
 
                 if st.value.func.attr == "append":
@@ -634,10 +696,24 @@ class Evaluator:
                         self.env[nm] = upd(cur, lambda xs: (arg,) + xs)
                         return live
                 else:
+                    mark_ = len(self.events)
                     arg = self.ev(st.value.args[0], live)
                     if arg[0] in ("list", "tuple"):
                         self.env[nm] = upd(cur, lambda xs: xs + arg[1])
                         return live
+                    if arg[0] == "comp" and arg[1] in ("gen", "list"):
+                        # xs = []; xs.extend(f(v) for v in vs)  is  xs = [f(v) for v in vs]
+                        def upd2(t):
+                            if t[0] == "ite":
+                                return ITE(t[1], upd2(t[2]), upd2(t[3]))
+                            items = () if t[0] == "alloc" else t[1]
+                            if not items:
+                                return ("comp", "list", arg[2], arg[3])
+                            return ("list", items + (("star", arg),))
+                        self.env[nm] = upd2(cur)
+                        self.list_defs.pop(nm, None)
+                        return live
+                    del self.events[mark_:]
         if isinstance(st, ast.Expr):
             if isinstance(st.value, ast.Constant):
                 return live
@@ -647,7 +723,7 @@ class Evaluator:
             val = self.ev(st.value, live)
             if len(st.targets) == 1 and isinstance(st.targets[0], ast.Name):
                 val = self._alloc(st.value, val, st.targets[0].id, st)
-                if val[0] == "list":
+                if val[0] == "list" or (val[0] == "alloc" and val[1] == "list"):
                     self.list_defs[st.targets[0].id] = (tuple(self.loop_stack), live)
                 else:
                     self.list_defs.pop(st.targets[0].id, None)
@@ -663,6 +739,15 @@ class Evaluator:
                 val = self.ev(st.value, live)
                 if isinstance(st.target, ast.Name):
                     val = self._alloc(st.value, val, st.target.id, st)
+                    nm_ = st.target.id
+                    if val[0] == "list" or (val[0] == "alloc" and val[1] == "list"):
+                        self.list_defs[nm_] = (tuple(self.loop_stack), live)
+                    else:
+                        self.list_defs.pop(nm_, None)
+                    if val[0] == "dict" and val[1]:
+                        self.dict_defs[nm_] = (tuple(self.loop_stack), live)
+                    else:
+                        self.dict_defs.pop(nm_, None)
                 self.assign(st.target, val, live, st)
             return live
         if isinstance(st, ast.AugAssign):
@@ -730,7 +815,8 @@ class Evaluator:
             self.emit("continue", live, NONE, st)
             return FALSE
         if isinstance(st, ast.Break):
-            self.emit("break", live, NONE, st)
+            ev_ = self.emit("break", live, NONE, st)
+            ev_.env_at = dict(self.env)  # type: ignore[attr-defined]  # what the loop's variables hold where it is left
             return FALSE
         if isinstance(st, ast.Pass):
             return live
@@ -1002,8 +1088,80 @@ class Evaluator:
             self.env[n] = ("loopout", n, lid)
         self.loops[lid].body_env = body_env  # type: ignore[attr-defined]
         if st.orelse:
-            self.block(st.orelse, live)
+            brk = [e for e in self.events if e.kind == "break" and e.loops and e.loops[-1] == lid]
+            if not brk:
+                self.block(st.orelse, live)
+                return live
+            # the else clause runs iff the loop was not left by `break`
+            B = ("broke", lid)
+            env_b = dict(self.env)
+            l_else = self.block(st.orelse, AND(live, NOT(B)))
+            env_e = self.env
+            merged = dict(env_e)
+            for k in set(env_b) | set(env_e):
+                vb, ve = env_b.get(k, ("unbound", k)), env_e.get(k, ("unbound", k))
+                if vb != ve:
+                    merged[k] = ITE(B, vb, ve) if l_else != FALSE else vb
+            self.env = merged
+            if l_else == FALSE:
+                return AND(live, B)
+            return live
         return live
+
+    def _normalise_search_loops(self):
+        """A search loop left by `break`
+
+            for x in xs:
+                v = f(x)
+                if c(v): break
+            else:
+                v = d
+            return g(v)
+
+        is the loop that returns from inside: `for x in xs: v = f(x); if c(v): return g(v)` followed by `return g(d)`.
+        Only when nothing but the return follows the loop (the else clause aside)."""
+        for lid, li in list(self.loops.items()):
+            B = ("broke", lid)
+            rets = [e for e in self.events if e.kind == "return" and any(x == B for x in walk(e.term))]
+            if len(rets) != 1 or B in set(walk(rets[0].live)):
+                continue
+            r = rets[0]
+            brk = [e for e in self.events if e.kind == "break" and e.loops and e.loops[-1] == lid]
+            if len(brk) != 1 or not hasattr(brk[0], "env_at"):
+                continue
+            b = brk[0]
+            after = [e for e in self.events if e.idx > b.idx and lid not in e.loops and e is not r]
+            if any(NOT(B) not in conjuncts(e.live) for e in after):
+                continue  # something else runs after the loop on the `break` path
+            mp = {}
+            for x in walk(r.term):
+                if x[0] == "loopout" and x[2] == lid:
+                    v = b.env_at.get(x[1])
+                    if v is None:
+                        mp = None
+                        break
+                    mp[x] = v
+            if mp is None:
+                continue
+
+            def choose(t, broke):
+                if not isinstance(t, tuple) or not t:
+                    return t
+                if t[0] == "ite" and t[1] == B:
+                    return choose(t[2] if broke else t[3], broke)
+                return tuple(choose(c, broke) if isinstance(c, tuple) else c for c in t)
+
+            t_break = subst(choose(r.term, True), mp)
+            t_done = choose(r.term, False)
+            if any(x == B or (x[0] == "loopout" and x[2] == lid) for x in walk(t_break)) or any(x == B for x in walk(t_done)):
+                continue
+            i = self.events.index(b)
+            self.events[i] = Event("return", b.live, t_break, r.node, b.loops, b.idx, b.handlers, b.in_handler)
+            j = self.events.index(r)
+            self.events[j] = Event("return", r.live, t_done, r.node, r.loops, r.idx, r.handlers, r.in_handler)
+            for e in after:
+                e.live = AND(*[c for c in conjuncts(e.live) if c != NOT(B)])
+            li.has_else = False
 
     def while_(self, st, live):
         lid = self.fresh("L")
@@ -1468,7 +1626,17 @@ class Evaluator:
         f = self.ev(n.func, live)
         args = []
         for a in n.args:
-            args.append(self.ev(a, live))
+            av = None
+            if isinstance(a, ast.GeneratorExp) and len(n.args) == 1 and not n.keywords and f[0] == "builtin" \
+                    and f[1] in ("tuple", "list", "set", "frozenset", "sum", "min", "max", "sorted", "dict") and f[1] not in self.env:
+                # a generator consumed on the spot over a literal display: the display of its elements
+                av = self._comp_unrolled(a, live, "list", lambda l, a=a: self.ev(a.elt, l))
+            if av is None:
+                av = self.ev(a, live)
+            if av[0] == "star" and av[1][0] in ("tuple", "list") and not any(x[0] == "star" for x in av[1][1]):
+                args.extend(av[1][1])  # f(*[a, b]) is f(a, b)
+            else:
+                args.append(av)
         kws = []
         for k in n.keywords:
             v = self.ev(k.value, live)
@@ -1630,11 +1798,27 @@ class Evaluator:
             except AnalysisError:
                 return None
             ci = self.index.class_by_qual(sy.qual) if sy is not None and sy.kind == "class" and ":" in sy.qual else None
-            found = ci.find_method(knode.func.attr) if ci is not None else None
+            return self._class_tag(ci, knode.func.attr) if ci is not None else None
+        return None
+
+    def _class_tag(self, ci, meth):
+        """`Class.meth()` when meth is a classmethod returning `cls.model_fields[<field>].default` and the class declares a
+        constant default for that field: that constant (the tag of a tagged union member).  None otherwise."""
+        cache = self.index.__dict__.setdefault("_class_tags", {})
+        key = (ci.qual, meth)
+        if key in cache:
+            return cache[key]
+        cache[key] = None
+        cache[key] = self._class_tag_uncached(ci, meth)
+        return cache[key]
+
+    def _class_tag_uncached(self, ci, meth):
+        if True:
+            found = ci.find_method(meth)
             if not found or not any(ast.unparse(d) == "classmethod" for d in found[1].decorator_list):
                 return None
             try:
-                cs = Evaluator(self.index, found[0].module, found[1], f"{found[0].qual}.{knode.func.attr}", found[0]).run()
+                cs = Evaluator(self.index, found[0].module, found[1], f"{found[0].qual}.{meth}", found[0]).run()
             except (AnalysisError, RecursionError):
                 return None
             rets = [e for e in cs.events if e.kind == "return"]
@@ -1711,6 +1895,22 @@ class Evaluator:
                 ev = self.emit("call", AND(live, subst(e.live, mp)), self._fold_records(fold_sub(subst(e.term, mp))), n)
                 ev.kw_order = getattr(e, "kw_order", [])  # type: ignore[attr-defined]
 
+    def _apply_once(self, fn, item, live, n):
+        """fn(item), evaluated here: the value, with the call (or the calls an inlined / local function makes) emitted"""
+        v = self._apply_fn(fn, [item])
+        if fn[0] == "lambda" and not (v[0] == "call" and v[1] == fn):
+            self._emit_lambda_calls(fn, [item], live, n)
+            return v
+        if v[0] == "call" and v[1] == fn:
+            t = ("call", fn, (item,), ())
+            inl = self._try_inline(fn, t, live, n)
+            if inl is not None:
+                return inl
+            ev = self.emit("call", live, t, n)
+            ev.kw_order = []  # type: ignore[attr-defined]
+            return t
+        return v
+
     def _apply_in_loop(self, fn, el, lid, live, n):
         """fn(el) evaluated once per element of loop `lid`: the call is an event of that loop (as in a comprehension)"""
         v = self._apply_fn(fn, [el])
@@ -1741,6 +1941,12 @@ class Evaluator:
 
     def _norm_call(self, f, args, named, spreads, live, n):
         plain = not named and not spreads and not any(a[0] == "star" for a in args)
+        # Class.tag() of a tagged-union member is the constant tag the class declares
+        if f[0] == "attr" and f[1][0] == "global" and f[1][2] == "class" and plain and not args and ":" in f[1][1]:
+            ci_ = self.index.class_by_qual(f[1][1])
+            tg_ = self._class_tag(ci_, f[2]) if ci_ is not None else None
+            if tg_ is not None:
+                return tg_
         # getattr(x, "name") is x.name
         if f == ("builtin", "getattr") and "getattr" not in self.env and plain and len(args) == 2 and args[1][0] == "const" \
                 and isinstance(args[1][1], str) and args[1][1].isidentifier():
@@ -1752,6 +1958,10 @@ class Evaluator:
             rv_ = self._record_values(ci_, args[0]) if any(b.split(".")[-1] == "NamedTuple" for b in ci_.ext_bases) else None
             if rv_ is not None:
                 return (f[1], tuple(rv_.values()))
+        # tuple([a, b]) / list((a, b)) / set([a, b]) of a display is the display of the other kind
+        if f in (("builtin", "tuple"), ("builtin", "list"), ("builtin", "set")) and f[1] not in self.env and plain and len(args) == 1 \
+                and args[0][0] in ("tuple", "list") and not any(x[0] == "star" for x in args[0][1]) and (args[0][1] or f[1] != "list"):
+            return (f[1], args[0][1])
         # list(<generator expression>) is the list comprehension (same for set / dict of pairs)
         if f in (("builtin", "list"), ("builtin", "set")) and plain and len(args) == 1 and args[0][0] == "comp" and args[0][1] == "gen" \
                 and f[1] not in self.env:
@@ -1764,6 +1974,14 @@ class Evaluator:
                 items = [(("const", k), v) for k, v in named] + [(("dstar",), v) for _, v in spreads]
                 if items:
                     return fold_sub(("dict", tuple(items)))
+        # {"a": x, "b": y}.values() / .keys() / .items() of a dict display are the displays of its parts
+        if f[0] == "attr" and f[2] in ("values", "keys", "items") and f[1][0] == "dict" and plain and not args \
+                and f[1][1] and not any(k_[0] == "dstar" for k_, _ in f[1][1]):
+            if f[2] == "values":
+                return ("tuple", tuple(v_ for _, v_ in f[1][1]))
+            if f[2] == "keys":
+                return ("tuple", tuple(k_ for k_, _ in f[1][1]))
+            return ("tuple", tuple(("tuple", (k_, v_)) for k_, v_ in f[1][1]))
         # any(c(x) for x in (a, b)) is c(a) or c(b); all(...) likewise
         if f in (("builtin", "any"), ("builtin", "all")) and f[1] not in self.env and plain and len(args) == 1 and args[0][0] == "comp" \
                 and len(args[0][3]) == 1 and not args[0][3][0][2] and args[0][3][0][1][0] in ("tuple", "list") \
@@ -1842,6 +2060,10 @@ class Evaluator:
                 finally:
                     self.loop_stack.pop()
                 return ("comp", "gen", v_, ((lid, items, ()),))
+        # map(f, (a, b)) over a literal display is (f(a), f(b))
+        if f == ("builtin", "map") and "map" not in self.env and plain and len(args) == 2 and args[1][0] in ("tuple", "list") \
+                and 0 < len(args[1][1]) <= 8 and not any(x[0] == "star" for x in args[1][1]) and not self.loop_stack:
+            return ("tuple", tuple(self._apply_once(args[0], item, live, n) for item in args[1][1]))
         # map(f, xs) / filter(p, xs) are generator expressions
         if f == ("builtin", "map") and "map" not in self.env and plain and len(args) == 2:
             lid = self.fresh("L")
@@ -2065,6 +2287,18 @@ class Evaluator:
             cls = ci
             fname = f"{cname}.{f[2]}"
             selfterm = f[1]
+        elif f[0] == "attr" and f[1][0] == "param" and f[1][1] in self.param_classes and f[1] not in (("param", "self"), ("param", "cls")):
+            # a method of the class a parameter is declared as
+            found = self.param_classes[f[1][1]].find_method(f[2])
+            if not found:
+                return None
+            cls, node = found
+            module = cls.module
+            fname = f"{cls.name}.{f[2]}"
+            modname = module.name
+            selfterm = f[1]
+            if any(ast.unparse(d) in ("staticmethod", "classmethod") for d in node.decorator_list):
+                return None
         elif f[0] == "attr" and f[1] in (("param", "self"), ("param", "cls")) and self.cls is not None:
             found = self.cls.find_method(f[2])
             if not found:
@@ -2090,19 +2324,24 @@ class Evaluator:
     def _prepare_inline(self, f, call_term):
         """Resolve, summarise and instantiate a helper call: -> (callee summary, inst(term), id map, qual) or None.
         Registers the callee's loops / tries / lambdas (renamed) in this evaluator."""
-        tgt = self._inline_target(f)
-        if tgt is None:
-            return None
-        module, node, qual, cls, selfterm = tgt
-        if qual in self.inline_stack or len(self.inline_stack) >= 4:
-            return None
-        sub = Evaluator(self.index, module, node, qual, cls)
-        sub.inline_stack = self.inline_stack + (qual,)
-        try:
-            cs = sub.run()
-        except (AnalysisError, RecursionError):
-            return None
-        self.inlined += [qual] + list(cs.inlined)
+        if f[0] == "lambda" and f[1] in self.lambdas and self.lambdas[f[1]].is_generator:
+            # a local generator function: its summary was taken where it is defined (closure values included)
+            cs = self.lambdas[f[1]]
+            qual, selfterm = cs.qual, None
+        else:
+            tgt = self._inline_target(f)
+            if tgt is None:
+                return None
+            module, node, qual, cls, selfterm = tgt
+            if qual in self.inline_stack or len(self.inline_stack) >= 4:
+                return None
+            sub = Evaluator(self.index, module, node, qual, cls)
+            sub.inline_stack = self.inline_stack + (qual,)
+            try:
+                cs = sub.run()
+            except (AnalysisError, RecursionError):
+                return None
+            self.inlined += [qual] + list(cs.inlined)
         params = list(cs.params)
         bound: Dict[tuple, tuple] = {}
         if selfterm is not None:
@@ -2357,7 +2596,7 @@ class Evaluator:
         value, condition under which an element is produced, events to emit after the consumer's body, qual) -- so that
         `for x in helper(...): body` reads as the helper's own loop with `body` in place of the yield.  A helper loop that
         itself iterates another such generator (a pipeline) is spliced recursively.  None = not that form."""
-        if depth > 3 or call_term[0] != "call" or self._inline_target(call_term[1]) is None:
+        if depth > 3 or call_term[0] != "call" or not self._is_helper_generator(call_term[1]):
             return None
         prep = self._prepare_inline(call_term[1], call_term)
         if prep is None:
@@ -2445,18 +2684,32 @@ class Evaluator:
             return self.rec_types.get(elt)
         return None
 
+    def _is_helper_generator(self, f) -> bool:
+        return (f[0] == "lambda" and f[1] in self.lambdas and self.lambdas[f[1]].is_generator) or self._inline_target(f) is not None
+
     def _for_over_helper_generator(self, st, live):
-        """`for x in helper(...): body` (the call written in place or held in a local): see _splice_generator."""
+        """`for x in helper(...): body` (the call written in place or held in a local): see _splice_generator.
+        `for x in takewhile(p, helper(...))` is the same loop leaving at the first element that fails p."""
         if st.orelse:
             return None
-        if isinstance(st.iter, ast.Call):
+        preds = []
+        it_node = st.iter
+        while isinstance(it_node, ast.Call) and len(it_node.args) == 2 and not it_node.keywords and isinstance(it_node.args[1], ast.Call):
             saved = len(self.events)
-            f = self.ev(st.iter.func, live)
-            if self._inline_target(f) is None:
+            f0 = self.ev(it_node.func, live)
+            if f0 != ("ext", "itertools.takewhile"):
+                del self.events[saved:]
+                break
+            preds.append(self.ev(it_node.args[0], live))
+            it_node = it_node.args[1]
+        if isinstance(it_node, ast.Call):
+            saved = len(self.events)
+            f = self.ev(it_node.func, live)
+            if not self._is_helper_generator(f):
                 del self.events[saved:]
                 return None
-            args = [self.ev(a, live) for a in st.iter.args]
-            kws = [(k.arg if k.arg is not None else "**", self.ev(k.value, live)) for k in st.iter.keywords]
+            args = [self.ev(a, live) for a in it_node.args]
+            kws = [(k.arg if k.arg is not None else "**", self.ev(k.value, live)) for k in it_node.keywords]
             named = sorted([kv for kv in kws if kv[0] != "**"], key=lambda kv: kv[0])
             call_term = ("call", f, tuple(args), tuple(named + [kv for kv in kws if kv[0] == "**"]))
         elif isinstance(st.iter, ast.Name) and self.env.get(st.iter.id, ("?",))[0] == "call":
@@ -2479,7 +2732,12 @@ class Evaluator:
         if val == ("elem", yl[-1]):
             self.loops[yl[-1]].target_text = ast.unparse(st.target)  # the consumer unpacks the innermost element
         self.assign(st.target, val, live, st)
-        self.block(st.body, AND(live, ylive))
+        inner_ = AND(live, ylive)
+        for p_ in reversed(preds):
+            c_ = self._apply_fn(p_, [val])
+            self.emit("break", AND(inner_, NOT(c_)), NONE, st)
+            inner_ = AND(inner_, c_)
+        self.block(st.body, inner_)
         for _ in yl:
             self.loop_stack.pop()
         body_env = self.env
@@ -2498,12 +2756,21 @@ class Evaluator:
         if kind == "gen" or len(n.generators) != 1:
             return None
         g = n.generators[0]
-        if g.ifs or g.is_async or not isinstance(g.iter, (ast.Tuple, ast.List, ast.Name, ast.Attribute)):
+        if g.ifs or g.is_async or not (isinstance(g.iter, (ast.Tuple, ast.List, ast.Name, ast.Attribute)) or (
+                isinstance(g.iter, ast.Call) and isinstance(g.iter.func, ast.Name) and g.iter.func.id == "zip" and "zip" not in self.env)):
             return None
         if any(isinstance(x, ast.NamedExpr) for x in ast.walk(n)):
             return None
         mark = len(self.events)
         it = self.ev(g.iter, live)
+        if it[0] == "call" and it[1] == ("builtin", "zip") and len(it[2]) >= 2 and not it[3] and len(self.events) == mark + 1 \
+                and any(a_[0] in ("tuple", "list") for a_ in it[2]):
+            # zip((a, b), xs): the pairs (a, xs[0]), (b, xs[1]) -- as long as xs has that many items (zip would stop early)
+            disp = [a_ for a_ in it[2] if a_[0] in ("tuple", "list") and not any(x[0] == "star" for x in a_[1])]
+            n_ = min(len(a_[1]) for a_ in disp) if disp else 0
+            if disp and 0 < n_ <= 8 and not any(a_[0] == "star" for a_ in it[2]):
+                del self.events[mark:]
+                it = ("tuple", tuple(("tuple", tuple(a_[1][i_] if a_ in disp else sub_const(a_, i_) for a_ in it[2])) for i_ in range(n_)))
         if it[0] not in ("tuple", "list") or not (0 < len(it[1]) <= 8) or any(x[0] == "star" for x in it[1]) or len(self.events) != mark:
             del self.events[mark:]
             return None
